@@ -445,7 +445,7 @@ void checkpoint(State& s)
 Verdict run_case(Case const& c, Ctx& ctx)
 {
 	Topology topo;
-	for (auto r : c.all("node")) if (topo.nodes.size() < 3 && !r->a.empty()) { NodeSpec n; n.fam = (r->a[0] == 2 || r->a[0] == 3) ? int(r->a[0]) : 0; topo.nodes.push_back(n); }
+	for (auto r : c.all("node")) if (topo.nodes.size() < 3 && !r->a.empty()) { NodeSpec n; n.fam = (r->a[0] == 2 || r->a[0] == 3 || r->a[0] == 4) ? int(r->a[0]) : 0; topo.nodes.push_back(n); }
 	if (topo.nodes.empty()) topo.nodes.push_back(NodeSpec());
 	int const nn = int(topo.nodes.size());
 	{ NodeSpec p; p.fam = 2; topo.nodes.push_back(p); } // probe node (v4 + v6)
@@ -686,7 +686,7 @@ rc::Gen<std::vector<Rec>> gen_snippet()
 
 rc::Gen<Case> gen_case(int maxcmd, bool burn)
 {
-	return rc::gen::map(rc::gen::tuple(kit::weighted({{3, 1}, {2, 2}, {1, 3}}), rc::gen::container<std::vector<long long>>(kit::weighted({{2, 0}, {1, 2}, {1, 3}})),
+	return rc::gen::map(rc::gen::tuple(kit::weighted({{3, 1}, {2, 2}, {1, 3}}), rc::gen::container<std::vector<long long>>(kit::weighted({{2, 0}, {1, 2}, {1, 3}, {1, 4}})),
 		rc::gen::container<std::vector<std::pair<long long, long long>>>(rc::gen::pair(kit::range(0, 2), kit::range(0, 2))), rc::gen::container<std::vector<std::vector<Rec>>>(gen_snippet()), kit::range(0, 19)),
 		[maxcmd, burn](std::tuple<long long, std::vector<long long>, std::vector<std::pair<long long, long long>>, std::vector<std::vector<Rec>>, long long> t) {
 			Case c;
